@@ -1,4 +1,5 @@
 import PeliteModel.Driver.Image
+import PeliteModel.Driver.Pure
 import PeliteModel.Spec.Dirs
 /-! Driver handlers for the small directory decoders (C15).  Mirrors harness/src/ops_dirs.rs operation
 for operation; the part after ` ## ` is the executable specification's view of the same input. -/
@@ -155,6 +156,33 @@ def securityDump (v : View) : String :=
 def dirsLayout : String :=
   s!"ok tls32={tlsSize .pe32}/{tlsAlign .pe32}:0:4:8:12:16:20 tls64={tlsSize .pe64}/{tlsAlign .pe64}:0:8:16:24:32:36 lc32={lcSize .pe32}/{lcAlign .pe32}:{lcOffCookie .pe32}:{lcOffTable .pe32}:{lcOffCount .pe32} lc64={lcSize .pe64}/{lcAlign .pe64}:{lcOffCookie .pe64}:{lcOffTable .pe64}:{lcOffCount .pe64} dbg=28/4:4:8:12:16:20:24:20413 cv20=16/4:{cv20OffOffset}:{cv20OffTimeDateStamp}:{cv20OffAge} cv70=24/4:{cv70OffSignature}:{cv70OffAge} misc=12/4:0:4:8 rf=12/4:0:4:8 uw=4/1:0:1:2:3 uc=2/1 cert=8/4:0:4:6 va32={Fmt.ptrSize .pe32}/4 va64={Fmt.ptrSize .pe64}/8"
 
+/-- fused: after the history drain the iterator (`n` = number of items, so `n + 1` calls of `next` suffice), then two
+more calls must answer `None` -/
+def pogoFused (data : Bytes) (st : Nat × Nat) (ops : List Seq.Op) (n : Nat) : Bool :=
+  match pgoRunOps data st (ops ++ List.replicate (n + 1) Seq.Op.next ++ [Seq.Op.next, Seq.Op.next]) with
+  | .ok tail => tail.drop (ops.length + n + 1) == [Seq.Res.item none, Seq.Res.item none]
+  | _ => false
+
+/-- pogo_hist <hex> <history>: a call history (next | nth:K | count | hint | clone, as `relocs_hist`) on the
+`PgoIter` of a `Pgo` over the given POGO data (whole dwords only) — model: `pgoRunOps`; specification: the same calls
+on the plain list `pgoItems` (`Seq.runSeq`) -/
+def pogoHist (a : List String) : String :=
+  match a with
+  | [hx, hist] =>
+    let raw := unhex hx
+    let data := raw.extract 0 (4 * (raw.size / 4))
+    let image : Ref := ⟨0, data.size, 4⟩
+    let st := pgoIterStart image
+    let ops := (parseHist hist).filterMap id
+    match pgoRunOps data st ops, pgoItems data image with
+    | .ok ans, .ok items =>
+      let spec := Seq.runSeq Seq.Hint.unknown items ops
+      let f01 : String := if pogoFused data st ops items.length then "1" else "0"
+      s!"ok {join (ans.map (fmtSeqRes dirsPgoItem)) ";"} fused={f01} ## spec={join (spec.map (fmtSeqRes dirsPgoItem)) ";"}"
+    | .ok _, o => outStr (fun _ => "") o
+    | o, _ => outStr (fun _ => "") o
+  | _ => "bad-op"
+
 def dispatchDirs : Handler := fun st fam a =>
   match fam, a with
   | "debug", [k, "dump"] => some (withView st.img k debugDump)
@@ -164,6 +192,7 @@ def dispatchDirs : Handler := fun st fam a =>
   | "exc", [k, "lookup", pc] => some (withView st.img k fun v => excLookup v (num pc % 4294967296))
   | "security", [k, "dump"] => some (withView st.img k securityDump)
   | "dirs_layout", _ => some dirsLayout
+  | "pogo_hist", _ => some (pogoHist a)
   | "debug", _ | "tls", _ | "loadcfg", _ | "exc", _ | "security", _ => some "bad-op"
   | _, _ => none
 
